@@ -1256,6 +1256,11 @@ def check_intscale(case, rec):
     elif cls in gens.COMPACT:
         region = "quad_kink_integral_scale"
         rec.label("kinked_edge" if _kinked(spec) else "smooth_edge")
+    elif cls in ("Stable", "TPLStable") and o["alpha"] <= 0.35:
+        # the same default QUADPACK integral (error estimate discarded) on stretched-exponential tails next to the lower end of alpha:
+        # 7e-5 relative observed for TPLStable(alpha=0.3, hurst=0.22, len_low=1e4 len_scale); same finding, same 1e-3 bound
+        region = "quad_kink_integral_scale"
+        rec.label("stretched_exponential_tail")
     if cls == "Rational" and o["alpha"] < 0.75:
         rec.label("rational_heavy_tail")
 
